@@ -72,10 +72,34 @@ func runC15(p *Prog, r *Report) {
 		var extra []string
 		for _, m := range p.SrcFuncs() {
 			if m.Signature.Recv() != nil && m.Parent() == nil && recvTypeName(m) == tn && m.Pkg == w.Pkg && m != w {
-				extra = append(extra, m.Name())
+				// any other method must be a pure pass-through: exactly one call, of the delegate's
+				// same-named method, and no limiter call
+				pure := len(LoopHeaders(m)) == 0
+				for _, s := range Paths(m).Segs {
+					n := 0
+					for _, e := range s.Events {
+						if e.Kind == EvGo || e.Kind == EvDefer {
+							pure = false
+						}
+						if e.Kind != EvCall {
+							continue
+						}
+						n++
+						im := IfaceMethod(e.Call)
+						if im == nil || im.Name() != m.Name() || isTakeCall(e.Call) {
+							pure = false
+						}
+					}
+					if n != 1 {
+						pure = false
+					}
+				}
+				if !pure {
+					extra = append(extra, m.Name())
+				}
 			}
 		}
-		r.Check(len(extra) == 0, "C15.R3", tn+"/methods", p.Pos(w.Pos()), "the writer wrapper overrides only WritePacketData (reading is delegated untouched, never charged)", "also declares "+strings.Join(extra, ", "))
+		r.Check(len(extra) == 0, "C15.R3", tn+"/methods", p.Pos(w.Pos()), "besides WritePacketData the writer wrapper has only pure pass-through methods (reading is delegated untouched, never charged)", "methods that are not pure pass-throughs: "+strings.Join(extra, ", "))
 	}
 	var rcvRoots []*ssa.Function
 	rcvRoots = append(rcvRoots, p.Implementers(modPath+"/pkg/packet", "Receiver", "ReceivePackets")...)
@@ -228,7 +252,7 @@ func checkLimiterWiring(p *Prog, r *Report, wrapperTypes map[string]*ssa.Functio
 					continue
 				}
 				k := 0
-				for _, s := range Paths(fn).Segs {
+				for _, s := range PathsInl(fn).Segs {
 					if !s.Has(c) {
 						continue
 					}
